@@ -649,6 +649,8 @@ func (w *bWorld) build(st *bStep) {
 		after, temps := w.records()
 		w.logEvent("GC", "live", w.liveNames(), "before", before, "after", after, "temps", temps,
 			"tree_same", treeBefore == bDigest(w.dir, false), "err", gerr != nil)
+		// a collection is allowed to delete records: a dry run after it is measured from here
+		preState, preTree = bSemantic(w.dir), bDigest(w.dir, false)
 		if st.Index {
 			// an index-only project cannot build; reload fully
 			proj, err = Load(w.dir, w.options())
